@@ -78,7 +78,7 @@ sv4_in(sv4_str * B, const char * s)
 	size_t k;
 
 	for (k = 0; k < AWS_NIN; k++) {
-		if (!g_aws_in[k].blob && g_aws_in[k].ptr != NULL && g_aws_in[k].ptr == (const void *)s) {
+		if (!g_aws_in[k].blob && g_aws_in[k].ptr != NULL && AWS_SAME_PTR(g_aws_in[k].ptr, s)) {
 			aws_stream_ref(B, (int)k);
 			return;
 		}
